@@ -32,6 +32,7 @@ impl MaybeDynSized for NetworkTag {
     const BASE_SIZE: usize = mem::size_of::<TagHeader>();
 
     fn dst_len(header: &TagHeader) -> usize {
+        assert!(header.size as usize >= Self::BASE_SIZE);
         header.size as usize - Self::BASE_SIZE
     }
 }
